@@ -41,6 +41,7 @@ def gen_params(rng, adversarial):
         return {}
     rows = rng.choice([1, 2, 2, 3, 4])
     names = rng.sample(PARAM_NAMES, n)
+    long_labels = n >= 3 and rng.random() < 0.25
     params = {}
     for k in names:
         kind = rng.choice(["int", "float", "str", "str"] + (["adv"] if adversarial else []))
@@ -48,7 +49,10 @@ def gen_params(rng, adversarial):
         if rng.random() < 0.2:
             vals = [vals[0]] * rows
         r = rng.random()
-        if r < 0.6:
+        if long_labels:
+            # descriptive labels: combination strings of a couple of hundred characters
+            label = "%s_%s.%%%%" % ("descriptive_label_of_parameter" + "_" * 14, k)
+        elif r < 0.6:
             label = "%s.%%%%" % k
         else:
             label = rng.choice(["%%", "L%%", "%s_%%%%" % k.lower(), "v-%%"])
